@@ -60,6 +60,12 @@ def build(tier="quick", per_identity=None):
         payload = (v << 1).to_bytes(3, "big") + fp[:11]
         items.append({"name": f"unk4076_{sub:03d}", "payload": payload,
                       "identity": f"4076_{sub:03d}", "shape": None, "kind": "unknown"})
+    # a payload that is itself a complete valid frame (tunnelled traffic; number 0xD30 = 3376)
+    inner = next((i["payload"] for i in items if i["identity"] == "1005"), b"\x3e\xd0\x00\x01")
+    items.append({"name": "nested-frame", "payload": pinned.frame(inner), "identity": "3376",
+                  "shape": None, "kind": "unknown"})
+    items.append({"name": "nested-frame2", "payload": pinned.frame(pinned.frame(b"\x3e\xd0\x00\x01")),
+                  "identity": "3376", "shape": None, "kind": "unknown"})
     # failing payloads: truncated versions of some ok items
     for it in [i for i in items if i["kind"] == "ok"][:: 7 if tier == "quick" else 3]:
         p = it["payload"]
